@@ -656,6 +656,16 @@ def name_write(text):
     if not m: refuse(W, f"compress_append: {b[:300]}")
     return [m.group(1), m.group(2), m.group(3)]
 
+# ------------------------------------------------------------------ name.rs: how names and labels are shown
+def name_display(text):
+    W = 'name.rs: Display for Label / Display for Name'
+    b = block_after(text, r"impl<'a>Display for Label<'a>\{fn fmt\(&self,f:&mut std::fmt::Formatter<'_>\)->std::fmt::Result", W)
+    if not re.match(r'f\.write_str\(&String::from_utf8_lossy\(&self\.data\)\)$', b): refuse(W, f"Display for Label: {b[:200]}")
+    b = block_after(text, r"impl<'a>Display for Name<'a>\{fn fmt\(&self,f:&mut std::fmt::Formatter<'_>\)->std::fmt::Result", W)
+    m = re.match(r'for\(i,label\)in self\.iter\(\)\.enumerate\(\)\{if i!=0\{f\.write_str\("((?:\\.|[^"\\])*)"\)\?;\}f\.write_fmt\(format_args!\("\{\}",label\)\)\?;\}Ok\(\(\)\)$', b)
+    if not m: refuse(W, f"Display for Name: {b[:200]}")
+    return {'label': 'utf8-lossy', 'sep': m.group(1)}
+
 # ------------------------------------------------------------------ name.rs: the relations between names
 def name_relations(text):
     W = 'name.rs: is_link_local / is_subdomain_of / without'
@@ -810,6 +820,7 @@ def generate(repo):
     ir = attempt('mdns.into_records', _ir)
     npz = attempt('name.parse', need('name', name_parse))
     nwr = attempt('name.write', need('name', name_write))
+    ndi = attempt('name.display', need('name', name_display))
     files['modrs'] = read('simple-dns/src/dns/mod.rs')
     qo = attempt('codes.question_codes_out', need('modrs', qcodes_out))
     mw = attempt('packet.message_writer', need('p', message_writer))
@@ -941,6 +952,9 @@ def generate(repo):
           "def nameParseOps : Option (List String) := " + ('none' if npz is None else 'some ' + strs(npz['ops'])),
           "/-- `Name::compress_append`: the mask OR-ed into a pointer, the comparison and the bound under which a position is entered into the table (`plain_append` and the rest of the body have the one recognised shape) -/",
           "def nameWrite : Option (List String) := " + ('none' if nwr is None else 'some ' + strs(nwr)),
+          "/-- `Display for Label` (the octets through `from_utf8_lossy`) and `Display for Name` (what stands between two labels) -/",
+          "def nameDisplayLabel : Option String := " + ('none' if ndi is None else 'some ' + q(ndi['label'])),
+          "def nameDisplaySep : Option String := " + ('none' if ndi is None else 'some "' + lean_str(ndi['sep']) + '"'),
           "/-- `From<QTYPE> for u16` and `From<QCLASS> for u16` (the codes the writers emit): (variant, code; `none` for the arm that converts the wrapped TYPE / CLASS) -/",
           "def qtypeToCode : Option (List (String × Option Nat)) := " + ('none' if qo is None else 'some [' + ', '.join(f'({q(a)}, {"none" if b == "inner" else "some " + b})' for a, b in qo['QTYPE']) + ']'),
           "def qclassToCode : Option (List (String × Option Nat)) := " + ('none' if qo is None else 'some [' + ', '.join(f'({q(a)}, {"none" if b == "inner" else "some " + b})' for a, b in qo['QCLASS']) + ']'),
